@@ -87,6 +87,13 @@ def new_attrs(snap, first_new):
     return frozenset(out)
 
 
+def old_attrs_changed(init, final, first_new):
+    """pre-existing objects whose kind, permission bits, owner or link body differ after the call"""
+    a = {i["id"]: (i.get("k"), i.get("mode"), i.get("uid"), i.get("b")) for i in init["inodes"] if i["id"] < first_new}
+    b = {i["id"]: (i.get("k"), i.get("mode"), i.get("uid"), i.get("b")) for i in final["inodes"] if i["id"] < first_new}
+    return frozenset((i, a[i], b[i]) for i in a if i in b and a[i] != b[i])
+
+
 def shape_of_model(c, newino):
     kinds = c["kinds"]
     kk = {int(k): v for k, v in (kinds.items() if isinstance(kinds, dict) else enumerate(kinds))}
@@ -167,7 +174,7 @@ def run(prop, tier_, sample=None, jobs=12, newino=20):
             raise ToolError("pv case failed: %s" % json.dumps(r)[:400])
         first_new = max([i["id"] for i in r["init"]["inodes"]]) + 1
         res0 = r["out"][0]["results"][0]
-        per[ci][who] = dict(out=outcome(res0, first_new), shape=shape_of_snapshot(r["final"], first_new), raw=res0, newattrs=new_attrs(r["final"], first_new),
+        per[ci][who] = dict(out=outcome(res0, first_new), shape=shape_of_snapshot(r["final"], first_new), raw=res0, newattrs=new_attrs(r["final"], first_new), oldchanged=old_attrs_changed(r["init"], r["final"], first_new),
                             init_shape=shape_of_snapshot(r["init"], first_new))
     return dict(cases=cases, per=per, trees=trees, design=design, gen=gen, total=total, build_s=build_s, t0=t0, newino=newino)
 
@@ -196,7 +203,7 @@ def judge_c14(data, v, stats, samples):
             canon = (lambda e: {"InvalidArgument": "EINVAL", "SAFETY": "EXDEV"}.get(e, e)) if c.get("api") == "c" else (lambda e: e)
             same_out = got["out"][0] == truth_out[0] and (got["out"][0] != "err" or canon(got["out"][1]) == canon(truth_out[1])) and \
                 (c["op"]["op"] != "create_file" or got["out"][0] != "ok" or got["out"] == truth_out)
-            same_attrs = ref is None or got["newattrs"] == ref["newattrs"]
+            same_attrs = (ref is None or got["newattrs"] == ref["newattrs"]) and got["oldchanged"] == (ref["oldchanged"] if ref is not None else frozenset())
             if same_out and got["shape"] == truth_shape and same_attrs:
                 stats["agree_" + bname] += 1
                 continue
@@ -204,7 +211,8 @@ def judge_c14(data, v, stats, samples):
                        got=list(got["out"]), want=list(truth_out), opdetail=c["op"])
             desc = ("[C API] " if c.get("api") == "c" else "") + "%s backend: %s(%r%s) on tree %s: outcome %s, final tree %s; the raw *at call on (in-root parent %r, name %r) gives %s" % (
                 bname, json.dumps(c["op"]), path, (", %r" % path2) if path2 else "", c["tree"], got["out"],
-                ("as expected" if same_attrs else "has the right entries but the created object differs in (kind, mode, link body, device, nlink): library %s, raw call %s" % (sorted(got["newattrs"], key=str), sorted(ref["newattrs"], key=str)))
+                ("as expected" if same_attrs else "has the right entries but the created object differs in (kind, mode, link body, device, nlink), or an existing object was modified: library %s / %s, raw call %s / %s" % (
+                    sorted(got["newattrs"], key=str), sorted(got["oldchanged"], key=str), sorted(ref["newattrs"], key=str) if ref else None, sorted(ref["oldchanged"], key=str) if ref else None))
                 if got["shape"] == truth_shape else "DIFFERS (%s)" % sorted(got["shape"] ^ truth_shape, key=str)[:4],
                 "/".join(c["split"]["dir"]), c["split"]["name"], truth_out)
             replay = dict(id="replay", tree=[node_to_pv(n) for n in data["trees"][c["tree"]]["nodes"] if n["k"] != "hard"], feat=dict(FEATS)[bname], trace=False, calls=[dict(lib_call(c), api=c.get("api", "rust"))])
